@@ -5,6 +5,7 @@ import (
 	"encoding/hex"
 	"strconv"
 
+	"github.com/ethereum/go-ethereum/common"
 	layer "github.com/tellor-io/layer/types"
 	"github.com/tellor-io/layer/x/bridge/types"
 
@@ -23,6 +24,10 @@ func (k msgServer) WithdrawTokens(goCtx context.Context, msg *types.MsgWithdrawT
 
 	recipient, err := hex.DecodeString(msg.Recipient)
 	if err != nil {
+		return nil, sdkerrors.ErrInvalidRequest
+	}
+	// the attested recipient is an EVM address: anything else would be cropped or padded silently
+	if len(recipient) != common.AddressLength {
 		return nil, sdkerrors.ErrInvalidRequest
 	}
 
